@@ -55,6 +55,16 @@ def mode_stats(cell, d):
     r = np.random.RandomState(cell["ms_seed"])
     K = cell["K"]
     means, covs = [], []
+    if cell.get("mismatch"):
+        # modes placed relative to the (interior, Gaussian) tempered target: cluster k sits `off` target standard deviations away from the target mean and is
+        # `mult` times as wide - a badly fitted mode has low acceptance, so its step size adapts away from the cap while a well fitted one stays there
+        facs = [cell["factor"]] + [cell.get("companion", ["gauss", 0.5, 0.2])] * (d - 1)
+        for k in range(K):
+            off, mult = cell["mismatch"][k]
+            sd = np.array([f[2] / math.sqrt(cell["beta"]) for f in facs])
+            means.append(np.array([f[1] for f in facs]) + off * sd)
+            covs.append(np.diag((mult * sd) ** 2))
+        return ModeStatistics(np.array(means), np.array(covs), np.array([cell["nu"]] * K, dtype=float))
     for k in range(K):
         m = r.uniform(0.1, 0.9, size=d)
         if cell["mean_outside"] and k == 0:
@@ -96,7 +106,13 @@ def one_stage(cell, tgt, ll, ms, M, seed):
         for cls in (tm.TPCNRunner, tm.RWMRunner):
             restore.append((cls, cls._initialize_sigmas))
             sig = cell["sigma"]
-            cls._initialize_sigmas = lambda self, sig=sig: np.ones(self.n_clusters) * sig
+            # the step size is set through the runner's own input (its nominal step size), and the runner's own initialisation then runs unchanged:
+            # whatever it derives or caches from the step size stays consistent (returning a different array from here would not be)
+            def _init(self, sig=sig, orig=cls._initialize_sigmas):
+                self.sigma_0 = sig
+                return orig(self)
+
+            cls._initialize_sigmas = _init
     try:
         with seams.active(run):
             mut.run(ms)
@@ -173,7 +189,7 @@ def run_case(cell):
                                f"after the mutate stage {zmax[0]}[coord {zmax[1]}, q={zmax[2]}] is off by z={zmax[3]:+.1f} (threshold {thr:.1f}); acceptance {acc:.2f}",
                                keys=dict(kernel=cell["kernel"], boundary=btype, d_gt1=bool(d > 1), assignment=assign)))
     return dict(violations=violations, stats=dict(walkers=cell["M"], stages=1 if (d == 1 and not cell.get("multi")) else cell["calls"], multi_step_cells=int(bool(cell.get("multi")))), probes={}, digest=json.dumps([round(z[3], 6) for z in zs][:4]),
-                distinct_key=json.dumps({k: cell.get(k) for k in ("kernel", "boundary", "factor", "beta", "d", "K", "nu", "sigma", "mean_outside", "assign", "companion", "multi", "n_steps", "n_max_steps")}, sort_keys=True),
+                distinct_key=json.dumps({k: cell.get(k) for k in ("kernel", "boundary", "factor", "beta", "d", "K", "nu", "sigma", "mean_outside", "assign", "companion", "multi", "n_steps", "n_max_steps", "mismatch")}, sort_keys=True),
                 nontrivial=0.02 < acc < 0.98, zmax=abs(zmax[3]) / thr * Z, cellkey=f"{cell['kernel']}/{btype}" + ("/assign-by-position" if assign == "position" else ""),
                 sample=dict(cell={k: cell[k] for k in ("kernel", "boundary", "factor", "beta", "d", "K", "nu", "sigma")}, acceptance=round(acc, 3), max_abs_z=round(abs(zmax[3]), 2), statistic=zmax[:3]))
 
@@ -204,6 +220,15 @@ def cases(seed, tier):
         if kernel == "tpcn" and cell["sigma"] is not None:
             cell["sigma"] = min(cell["sigma"], 0.99)
         out.append(cell)
+    # step-size adaptation cells: several MCMC steps with modes fitted so badly (or so differently per cluster) that the per-cluster step sizes leave their
+    # cap and differ from each other; whatever the runner derives from a step size must follow it
+    adapt = [("tpcn", 1, [(2.0, 3.0)], 1), ("tpcn", 2, [(2.0, 3.0), (0.0, 1.0)], 1), ("tpcn", 2, [(0.0, 1.0), (2.0, 3.0)], 2), ("rwm", 2, [(2.0, 4.0), (0.0, 1.0)], 1),
+             ("tpcn", 2, [(1.5, 0.4), (0.0, 1.2)], 2), ("rwm", 1, [(0.0, 5.0)], 2), ("tpcn", 1, [(0.0, 4.0)], 2), ("tpcn", 3, [(2.0, 3.0), (0.0, 1.0), (-1.0, 2.0)], 1)]
+    for k, (kernel, K, mm, d) in enumerate(adapt if tier == "quick" else adapt * 6):
+        r = random.Random(sch.np_seed(f"c03.adapt{k}"))
+        out.append(dict(kernel=kernel, boundary="hard-interior", factor=["gauss", 0.5, r.choice([0.05, 0.08])], beta=r.choice([0.5, 1.0]), d=d, K=K, nu=r.choice([5.0, 1e6]), mean_outside=False, scale=1.0,
+                        sigma=None, ms_seed=r.randrange(2**31), seed=sch.np_seed(f"c03as.{k}") % (2**31), M=100000 if tier == "quick" else 200000, calls=40, mismatch=mm,
+                        multi=True, n_steps=r.choice([4, 6]), n_max_steps=r.choice([10, 20]), **({"companion": ["gauss", 0.5, 0.1]} if d > 1 else {})))
     return out
 
 
